@@ -89,6 +89,14 @@ CHECKS = {
                      "object); each binding file is lexed by a construct-counting lexer that fails closed on anything it does not understand, and every published "
                      "constant, macro family and wrapped prototype is compared (about 24 000 comparisons), plus version strings of all build/packaging files.",
                 note="Non-C bindings are lexed, never compiled (no Fortran/Pascal/Cython/SWIG/IDL toolchain here); struct layouts and reshaped object wrappers are not compared."),
+    "C14": dict(level="model_checking", engine="HIST", ref="4/C14",
+                technique="explicit-state BFS over operation histories of the real crystal-collection code (fork per state), to closure, against a dictionary model, repeated under ASan/UBSan",
+                text="States are observable collection contents (through the public list/lookup API) reached by replaying an operation history on the real library "
+                     "in a fork of a pristine process; every enabled operation of the alphabet is executed from every state in a further fork and compared with a "
+                     "dictionary model (result, error, sorted duplicate-free content, recomputed volumes, independent copies, built-in collection intact, no live "
+                     "blocks after teardown). The core alphabet (21 ops incl. capacity-crossing start states and colliding crystal files) is explored to closure, so "
+                     "the result holds for histories of any length over it; wider alphabets and the built-in collection at its fixed capacity are depth bounded.",
+                note="Finite name and file alphabets; closure is relative to them. ReadFile is read as all-or-nothing. UBSan's nonnull-attribute check is disabled (bsearch on an empty array)."),
 }
 NOT_YET = {}
 ALL = ["C%02d" % i for i in range(1, 21)]
